@@ -511,7 +511,7 @@ def inductive_contig(R, rep, genome, contig, Lc, lemma_cache, timeout):
         key = ('q', tag, label)
         jobs.append((key, pyk.smt2(pre + [vio], 'QF_NIA'), ('z3new', 'cvc5'), timeout))
         if classes is not None:
-            jobs.append((key + ('replayable',), pyk.smt2(pre + [vio, replayable], 'QF_NIA'), ('z3new', 'cvc5'), timeout))
+            jobs.append((key + ('replayable',), pyk.smt2(pre + [vio, replayable], 'QF_NIA'), ('z3new', 'cvc5'), min(timeout, 30)))
         plan.append((name, key, classes, reach))
     R.transitions += len(paths2)
 
@@ -587,7 +587,7 @@ def part_a(R):
     jobs, finishers = [], []
     t0 = time.time()
     for g, c in todo:
-        j, fin = inductive_contig(R, rep, g, c, lengths[(g, c)], lemma_cache, 20 if quick else 200)
+        j, fin = inductive_contig(R, rep, g, c, lengths[(g, c)], lemma_cache, 20 if quick else 120)
         jobs += j
         finishers.append((lengths[(g, c)], fin))
     ljobs = []
